@@ -261,6 +261,15 @@ func R18(p *core.Prog) *core.Result {
 			for _, in := range b.Instrs {
 				switch x := in.(type) {
 				case *ssa.Store:
+					// a whole-node store through an existing *symbol overwrites value as well
+					if pt, ok := x.Addr.Type().Underlying().(*types.Pointer); ok {
+						if wn, ok := pt.Elem().(*types.Named); ok && wn.Obj() == symT {
+							if _, isAlloc := x.Addr.(*ssa.Alloc); !isAlloc {
+								r.Fail(".INTERN-CONSISTENT", core.FuncKey(f)+"|symbol-store", p.Pos(x.Pos()), core.FuncKey(f)+" overwrites a whole cache node (symbol.value included) that may still be referenced: the map entry keyed by the old string can no longer be found through the node (eviction deletes the wrong key), or hands out a different string", "")
+							}
+							continue
+						}
+					}
 					fa, ok := x.Addr.(*ssa.FieldAddr)
 					if !ok {
 						continue
@@ -368,7 +377,7 @@ func init() {
 	register(&PropSpec{
 		ID:    "C20",
 		Level: "other",
-		Decided: "(a) 'nothing evicted' is never dereferenced: every call site of a gotype function that can return nil without an error tests the result before using it (capacity 0 / empty list); (b) what is handed out equals what was looked up for every history: key and symbol.value are the same value at every insertion, symbol.value is never overwritten, eviction deletes the evicted key; (c) cached keys are copies, never views of the producer's bytes (R16 view rule and by-reference rule).",
+		Decided: "(a) 'nothing evicted' is never dereferenced: every call site of a gotype function that can return nil without an error tests the result before using it (capacity 0 / empty list); (b) what is handed out equals what was looked up for every history: key and symbol.value are the same value at every insertion, symbol.value is never overwritten, eviction deletes the evicted key; (c) cached keys are copies, never views of the producer's bytes (R16 view rule and by-reference rule). A whole-node store through an existing *symbol counts as overwriting symbol.value.",
 		NotDecided: "LRU order and that the cache never exceeds its capacity (these affect memory, not results); equality of whole unfolding results with and without cache beyond key identity.",
 		Assumptions: []string{"Go map lookup with a zero-copy string view compares by content"},
 		TrustedBase: baseTrusted,
